@@ -6,4 +6,5 @@ CONSTANTS
   MaxTexts = 100000
   Flags <- FlagWords
   Verbs <- Levels
+  TextShapes <- MarkShapes
   Repaired = TRUE
